@@ -2,7 +2,7 @@
    joserfc.jwe (shared by C02 / C04 / C08).  Each case carries the finite
    oracle table recorded from the real run: a primitive query the real run did
    not make evaluates to [Err EOracleMiss] and the case disagrees. *)
-From Model Require Import JweBase JweCrypto JweMsg.
+From Model Require Import JweBase JweCrypto JweMsg JweKeys.
 Open Scope N_scope.
 
 Inductive jwecase :=
@@ -11,7 +11,16 @@ Inductive jwecase :=
 | CDecJson (t : otable) (g : registry) (data : pv) (keys : list key) (sender : option key)
            (expect : res (bytes * pv))
 | CEncCompact (t : otable) (g : registry) (o : eobj) (d : edraw) (expect : res bytes)
-| CEncJson (t : otable) (g : registry) (o : eobj) (d : edraw) (expect : res pv).
+| CEncJson (t : otable) (g : registry) (o : eobj) (d : edraw) (expect : res pv)
+(* with key resolution (model/JweKeys.v) *)
+| CDecCompactK (t : otable) (g : registry) (value : bytes) (src : ksrc) (ssrc : option ksrc0)
+               (expect : res (bytes * pv))
+| CDecJsonK (t : otable) (g : registry) (data : pv) (src : ksrc) (ssrc : option ksrc0)
+            (expect : res (bytes * pv))
+| CEncCompactK (t : otable) (g : registry) (o : eobj) (d : edraw) (k : kkey) (sk : option kkey)
+               (expect : res bytes)
+| CEncJsonK (t : otable) (g : registry) (o : eobj) (d : edraw) (ks : list (kkey * option kkey))
+            (expect : res pv).
 
 Definition nokey : key := {| k_kty := []; k_crv := []; k_priv := false; k_id := [] |}.
 
@@ -28,6 +37,10 @@ Definition jwe_run (c : jwecase) : jweout :=
   | CDecJson t g d ks s _ => OD (dec_obs (decrypt_json (table_oracles t) g d ks nokey s))
   | CEncCompact t g o d _ => OB (encrypt_compact (table_oracles t) g o d)
   | CEncJson t g o d _ => OP (encrypt_json (table_oracles t) g o d)
+  | CDecCompactK t g v src ss _ => OD (dec_obs (decrypt_compact_k (table_oracles t) g v src ss))
+  | CDecJsonK t g d src ss _ => OD (dec_obs (decrypt_json_k (table_oracles t) g d src ss))
+  | CEncCompactK t g o d k sk _ => OB (encrypt_compact_k (table_oracles t) g o d k sk)
+  | CEncJsonK t g o d ks _ => OP (encrypt_json_k (table_oracles t) g o d ks)
   end.
 
 Definition jwe_check (c : jwecase) : bool :=
@@ -36,6 +49,10 @@ Definition jwe_check (c : jwecase) : bool :=
   | CDecJson _ _ _ _ _ e, OD r => res_eqb pair_eqb r e
   | CEncCompact _ _ _ _ e, OB r => res_eqb beqb r e
   | CEncJson _ _ _ _ e, OP r => res_eqb pv_eqb r e
+  | CDecCompactK _ _ _ _ _ e, OD r => res_eqb pair_eqb r e
+  | CDecJsonK _ _ _ _ _ e, OD r => res_eqb pair_eqb r e
+  | CEncCompactK _ _ _ _ _ _ e, OB r => res_eqb beqb r e
+  | CEncJsonK _ _ _ _ _ e, OP r => res_eqb pv_eqb r e
   | _, _ => false
   end.
 
@@ -51,3 +68,4 @@ Definition mk_eobj (s : ser) (p : dict) (u : pv) (a : option bytes) (m : bytes) 
   {| e_ser := s; e_prot := p; e_unprot := u; e_aad := a; e_plain := m; e_recips := rs |}.
 Definition mk_rdraw (a b : bytes) : rdraw := {| d_kwiv := a; d_p2s := b |}.
 Definition mk_edraw (c i : bytes) (l : list rdraw) : edraw := {| d_cek := c; d_civ := i; d_rec := l |}.
+Definition mk_kkey (k : key) (kid use : pv) : kkey := {| kk_key := k; kk_kid := kid; kk_use := use |}.
